@@ -33,3 +33,42 @@ Proof.
   unfold dSIR_compact_pairwise. rewrite take_last_app by reflexivity.
   rewrite drop_last_app by reflexivity. rewrite take_last_app by reflexivity. unfold vnth. cbn [nth]. reflexivity.
 Qed.
+
+(* SIS super compact pairwise: the edge total SS + 2 SI + II is conserved by the right-hand side
+   (the wrapper returns SS, SI, II read from the solver; <k>N = SS + 2SI + II at tmin by row0) *)
+Lemma conserve_edges_dSIS_super_compact_pairwise I SS SI II t tau gamma N k1 k2 k3 :
+  let d := dSIS_super_compact_pairwise [I; SS; SI; II] t tau gamma N k1 k2 k3 in
+  vnth 1 d + 2 * vnth 2 d + vnth 3 d == 0.
+Proof.
+  cbv zeta. unfold dSIS_super_compact_pairwise, vnth. cbn [nth].
+  set (Qc := (_ - 1) / _). unfold qpow. change (Qpower SI 2) with (SI * SI). ring.
+Qed.
+
+(* the recovered compartment of the SIR systems grows at rate gamma * I, with I the very expression the
+   wrapper returns (N - S - R): together with the structural S+I+R=N this is the algebraic core of
+   "R non-decreasing" (sign lemma: dR >= 0 wherever I >= 0, gamma >= 0) *)
+Lemma dR_EBCM theta R t N tau gamma (ps psP : Q -> Q) phiS0 phiR0 :
+  vnth 1 (dEBCM [theta; R] t N tau gamma ps psP phiS0 phiR0) == gamma * (N - N * ps theta - R).
+Proof. unfold dEBCM, vnth. cbn [nth]. reflexivity. Qed.
+Lemma dR_SIR_super_compact_pairwise theta SS SI R t tau gamma (ps psP psDP : Q -> Q) N :
+  vnth 3 (dSIR_super_compact_pairwise [theta; SS; SI; R] t tau gamma ps psP psDP N) == gamma * (N - N * ps theta - R).
+Proof. unfold dSIR_super_compact_pairwise, vnth. cbn [nth]. reflexivity. Qed.
+Lemma dR_SIR_compact_effective_degree Sk R SI t N tau gamma :
+  vnth 0 (take_last 2 (dSIR_compact_effective_degree (Sk ++ [R; SI]) t N tau gamma)) == gamma * (N - R - vsum Sk).
+Proof.
+  unfold dSIR_compact_effective_degree. rewrite (take_last_app _ [_; _]) by reflexivity.
+  rewrite drop_last_app by reflexivity. rewrite take_last_app by reflexivity. unfold vnth. cbn [nth]. reflexivity.
+Qed.
+Lemma dRk_SIR_heterogeneous_meanfield theta Rk t S0 Nk tau gamma :
+  slice_from 1 (dSIR_heterogeneous_meanfield (theta :: Rk) t S0 Nk tau gamma)
+  = smul gamma (vsub (vsub Nk (vmul S0 (spow_arange theta (length Rk)))) Rk).
+Proof. unfold dSIR_heterogeneous_meanfield, slice_from, vnth. cbn [skipn nth app]. reflexivity. Qed.
+Lemma sign_dR gamma I : 0 <= gamma -> 0 <= I -> 0 <= gamma * I.
+Proof. intros. apply Qmult_le_0_compat; assumption. Qed.
+(* dS <= 0 for the homogeneous SIR mean field on the feasible region *)
+Lemma sign_dS_SIR_homogeneous_meanfield S I t c tau gamma :
+  0 <= tau -> 0 <= c -> 0 <= S -> 0 <= I -> vnth 0 (dSIR_homogeneous_meanfield [S; I] t c tau gamma) <= 0.
+Proof.
+  intros Ht Hc HS HI. unfold dSIR_homogeneous_meanfield, vnth. cbn [nth].
+  assert (H : 0 <= tau * c * S * I) by (repeat apply Qmult_le_0_compat; assumption). lra.
+Qed.
